@@ -1,10 +1,10 @@
 #!/bin/bash
 # tools/seeded_results.sh  - runs every seeded change against its owning property's quick check (scratch worktrees,
-# three at a time) and writes seeded/RESULTS.txt.  Takes about an hour.
+# four at a time) and writes seeded/RESULTS.txt.  Takes about an hour.
 cd "$(dirname "$0")/.."
 out=seeded/RESULTS.txt
 tmp=$(mktemp)
-for d in seeded/*/; do n=$(basename $d); p=${n%%-*}; echo "tools/mutant.sh $n $d/patch.diff quick $p"; done | xargs -P 3 -I{} sh -c '{}' 2>&1 | sort > $tmp
+for d in seeded/*/; do n=$(basename $d); p=${n%%-*}; echo "tools/mutant.sh $n $d/patch.diff quick $p"; done | xargs -P 4 -I{} sh -c '{}' 2>&1 | sort > $tmp
 {
   echo "# owning quick check against each seeded change (tools/mutant.sh, scratch worktree of /repo $(git -C /repo log --format=%h -1), /verif $(git log --format=%h -1))"
   echo "# exit=1: the check reported a VIOLATION (signatures follow); exit=0: not detected by the owning check (see DESIGN.md section 8)"
